@@ -248,7 +248,7 @@ class Ctx:
 
 
 def real_run(ctx: Ctx, conn: Conn, sources: list[tuple[str, str]] | None, texts: dict[str, str], fault: str | None) -> tuple[str, bool]:
-    """-> (canonical outcome, raised?)"""
+    """`texts`: script text -> file name.  -> (canonical outcome, raised?)"""
     conn.fault_text = fault
     conn.script_in_flight = None
     try:
@@ -266,9 +266,7 @@ def real_run(ctx: Ctx, conn: Conn, sources: list[tuple[str, str]] | None, texts:
             pass
         name = None
         if s is not None:
-            for n, t in texts.items():
-                if s == "BEGIN;\n" + t:
-                    name = n
+            name = texts.get(s[len("BEGIN;\n"):]) if s.startswith("BEGIN;\n") else None
         if name is None:
             return f"raised {type(e).__name__} " + canon(conn), True
         return f"failed {name} " + canon(conn), True
@@ -644,7 +642,7 @@ def run_family(ctx: Ctx, fam: dict) -> None:
 
     real_sources = None if shipped else [(p, m) for (p, _f), m in zip(src_specs, mods)]
     model_full = "runshipped" if shipped else "run " + enc_sources([(p, l) for (p, _f), l in zip(src_specs, listings)])
-    texts_full = {n: t for order in orders for n, t, _v in order}
+    texts_full = {t: n for order in orders for n, t, _v in order}
 
     # reference final state: a plain sqlite3 connection, fresh database
     ref = None
@@ -683,7 +681,7 @@ def run_family(ctx: Ctx, fam: dict) -> None:
             pre = [(n, t) for n, t, _v in order0[:j]] + [("__init__.py", "")] + [e for e in extras if e[0] != "__init__.py" and not e[0].endswith(".sql")]
             mod_j = ctx.pkgs.make(pre)
             lst = ctx.pkgs.listing(mod_j)
-            r, raised = real_run(ctx, conn, [(main_pkg, mod_j)], dict(lst), None)
+            r, raised = real_run(ctx, conn, [(main_pkg, mod_j)], {t: n for n, t in lst}, None)
             ctx.op("run " + enc_sources([(main_pkg, lst)]), r, case)
             out.evaluations += 1
             if raised:
@@ -773,9 +771,29 @@ def unicode_tables() -> str:
 
 
 def gen_header_text(rng: random.Random) -> str:
-    alphabet = ["-", "-", " ", "\t", "m", "migration:", "migration", ":", "1", "2", "0", "9", "\n", "\r", "\x0b", "\x0c", "\x1c", "\x1f",
-                "\x85", " ", " ", " ", "　", "٣", "३", "５", "x", "--", "-- migration: ", "M", "²", "Ⅷ", " "]
-    return "".join(rng.choice(alphabet) for _ in range(rng.randint(0, 14)))
+    """first lines around the header grammar: mostly near-valid, mutated; some pure noise"""
+    sp = [" ", " ", "\t", "", "  ", "\x1f", "\xa0", "\u3000", "\u2003", "\x0c", "\x1c", "\x85", "\n", "\r", "\x0b", "\u2028"]
+    dg = ["1", "2", "7", "0", "12", "007", "\u0663", "\u0969", "\uff15", "4\u0665", "\U0001d7d8", "\u00b2", "\u2167", "", "-3", "x"]
+    noise = ["-", "--", "---", "x ", "/* c */ ", "-- migration: ", "migration:", "-- Migration: 5 ", "#", ""]
+    if rng.random() < 0.2:
+        alphabet = ["-", "-", " ", "\t", "m", "migration:", "migration", ":", "1", "2", "0", "\n", "\x1f", "\x85", "\u00a0", "\u0663", "x", "--"]
+        return "".join(rng.choice(alphabet) for _ in range(rng.randint(0, 14)))
+    parts = [rng.choice(noise) if rng.random() < 0.4 else "", "--", rng.choice(sp) * rng.randint(0, 2), "migration:", rng.choice(sp) * rng.randint(0, 2),
+             rng.choice(dg), rng.choice(["", "", " tail", "\n-- migration: 9", "9", " -- migration: 8", "\u0661"])]
+    r = rng.random()
+    if r < 0.35:
+        i = rng.randrange(len(parts))
+        m = rng.random()
+        if m < 0.3:
+            parts[i] = ""
+        elif m < 0.6 and parts[i]:
+            j = rng.randrange(len(parts[i]))
+            parts[i] = parts[i][:j] + parts[i][j + 1:]
+        elif m < 0.8:
+            parts[i] = parts[i].upper()
+        else:
+            parts.insert(i, rng.choice(sp + ["\n", "x"]))
+    return "".join(parts)
 
 
 def run(env: Env) -> Outcome:
@@ -794,12 +812,12 @@ def run(env: Env) -> Outcome:
         fams.append(shipped_family())
         fams += corpus_families()
         rng = random.Random(env.rng.randrange(1 << 30))
-        n = env.budget(40, 1500)
+        n = min(env.budget(150, 1500), 4000)  # (deep mode multiplies by 10: keep the widened search inside the time limit)
         for i in range(n):
             fams.append(gen_family(rng, wild=(i % 2 == 1), nstarts=3 if env.tier == "quick" else 4))
         # header parser on its own: random first lines
         ctx.op("classes", unicode_tables(), {"what": "unicode tables used by the header regex"})
-        for _ in range(env.budget(300, 6000)):
+        for _ in range(min(env.budget(1500, 20000), 60000)):
             t = gen_header_text(rng)
             pv = ctx.utils.parse_target_version(t)
             ctx.op("parse " + enc(t), "none" if pv is None else f"some {pv}", {"what": "parse", "text": t})
